@@ -933,17 +933,20 @@ struct Runner
    template <class F, class G> bool both(const char* fn, F cf, G tf)
    {
       bool ce = false, te = false;
+      std::string what;
       try
       {
          cf();
       }
-      catch(const soplex::SPxException&)
+      catch(const soplex::SPxException& x)
       {
          ce = true;
+         what = x.what();
       }
-      catch(const std::exception&)
+      catch(const std::exception& x)
       {
          ce = true;
+         what = x.what();
       }
       try
       {
@@ -971,7 +974,7 @@ struct Runner
          ev().count(std::string("both_threw.") + fn);
          if(!allowThrow)
          {
-            v.fail(std::string("SoPlex_") + fn + ": a C++ exception escaped from the extern \"C\" function (the C++ call throws too)");
+            v.fail(std::string("SoPlex_") + fn + ": a C++ exception escaped from the extern \"C\" function (the C++ call throws too): " + what.substr(0, 60));
             return false;
          }
       }
@@ -1411,6 +1414,7 @@ bool Runner::step(const Rec& r)
             }
             catch(...)
             {
+               _exit(5);   // optimize() itself throws: the C++ API fails in the same way, not a wrapper matter
             }
             _exit(0);
          }
@@ -1433,6 +1437,12 @@ bool Runner::step(const Rec& r)
                ev().count(std::string("excluded_known.") + K_SOLVEDATA);
                return true;
             }
+         }
+         else if(waited && WIFEXITED(st) && WEXITSTATUS(st) == 5)
+         {
+            ev().count("unjudged.optimize_throws_in_cpp_api_too");
+            if(caseTextForCrash && opts().mode == "gen") writeFile(opts().dir + "/cpp_solver_throw_" + std::to_string(crashNo++ % 5) + ".case", *caseTextForCrash);
+            return true;
          }
          else if(waited && !(WIFEXITED(st) && WEXITSTATUS(st) == 0))
          {
